@@ -55,6 +55,46 @@ def record_sweep(c, mode, every, procs=16, budget=20_000_000):
     return lines
 
 
+def generate_constant_cases(c):
+    """Gen_Constant: TLC emits every constant-shaped rule sequence of the bounded model, printed with Display.tla."""
+    r = vlib.tlc_ok("Gen_Constant", workers=4, heap="4g", timeout=1800)
+    cases = r.printed("REPLAY")
+    if len(cases) < 1000:
+        raise vlib.ToolError("Gen_Constant produced only %d cases" % len(cases))
+    unsound = [x for x in cases if not x["sound"]]
+    if unsound:
+        raise vlib.ToolError("the model's own IsConstant is unsound on %r" % unsound[0])
+    path = os.path.join(vlib.WORK, "%s_constant_cases.ndjson" % c.pid.lower())
+    with open(path, "w") as f:
+        for x in cases:
+            f.write(json.dumps(x) + "\n")
+    c.setv("constant_shaped_sequences_generated", len(cases))
+    c.setv("constant_shaped_sequences_model_says_constant", sum(1 for x in cases if x["constant"]))
+    return path
+
+
+def record_cases(c, mode, cases_path, every, procs=8):
+    """TLC-generated expressions through the real iterator (mode cases-range) or state/next_change (cases-point)."""
+    import time
+    t0 = time.time()
+
+    def one(i):
+        path = os.path.join(vlib.WORK, "%s_%s_%02d.ndjson" % (c.pid.lower(), mode, i))
+        vlib.ohv(["record", "iter", "--mode", mode, "--cases", cases_path, "--seed", c.seed, "--every", every,
+                  "--part", i, "--parts", procs], stdout_path=path, timeout=7200)
+        return path
+
+    with cf.ThreadPoolExecutor(max_workers=procs) as ex:
+        paths = list(ex.map(one, range(procs)))
+    lines = []
+    for p in paths:
+        lines += open(p).read().splitlines()
+    agree = sum(1 for l in lines if json.loads(l).get("is_constant") == json.loads(l).get("model_constant"))
+    c.setv("is_constant_flag_equals_model_IsConstant", "%d of %d generated events (diagnostic, not a verdict)" % (agree, len(lines)))
+    vlib.log('[record] %s: %d events in %.1fs (is_constant = model on %d)' % (mode, len(lines), time.time() - t0, agree))
+    return lines
+
+
 def renumber(lines):
     out = []
     for l in lines:
